@@ -113,11 +113,11 @@ pub fn stub_write<N: lexical_core::ToLexical>(_n: N, bytes: &mut [u8]) -> &mut [
 
 /// Any other lexical_core formatting entry point (non-default options) is NOT the contract for
 /// finite floats: mark its output so that its use is noticed.
-pub fn stub_write_with_options<N: lexical_core::ToLexicalWithOptions, const FORMAT: u128>(
+pub fn stub_write_with_options<'a, N: lexical_core::ToLexicalWithOptions, const FORMAT: u128>(
     _n: N,
-    bytes: &mut [u8],
+    bytes: &'a mut [u8],
     _options: &N::Options,
-) -> &mut [u8] {
+) -> &'a mut [u8] {
     bytes[0] = b'G';
     &mut bytes[..1]
 }
